@@ -15,6 +15,10 @@ CHECKS = {
     text="Every functional component of every wrapper and wrapper pair is traced over an uninterpreted base environment and shown equal (unsat) to a reference in which only the declared change is applied (mapped action for transition, reward AND info; post-processed observation/reward; counter +1; truncate = inner or count>=N with N symbolic); advertised spaces, images of clip/rescale maps, rescale endpoints and monotonicity, unwrapped chains to depth 3, constructibility of all 11 wrappers, the TimeLimit exactness lemma, and the slot wiring of the Gymnax / Gymnasium adapters (io_callback as UF) are separate obligations.",
     note="bounded: stack depth 2 for methods, 3 for unwrapped; rescale on bounded dyadic boxes; LeraxToGymEnv and real Gymnasium envs outside the claim",
     ref="DESIGN.md §2 C13"),
+ "C04": dict(
+    text="AbstractActorCriticOnPolicyAlgorithm.step and collect_rollout (S<=3) are traced over an UNINTERPRETED environment (bare and under TimeLimit with symbolic limit/count; Discrete with/without mask, Box(2) with symbolic bounds) and an uninterpreted stateful actor-critic policy, from an arbitrary carried state; every stored field, the clipped-action driving of transition and reward, done = term or trunc, bootstrapping iff truncated-and-not-terminated with V of the successor observation, resets of env and policy state with fresh keys, and mask recording are shown equal (unsat) to a reference interpreter written from the statement; collect_rollout equals the S-fold composition of the reference step followed by GAE on the recorded stream.",
+    note="one step from an arbitrary state covers all histories; S bounded; env/policy arbitrary total functions; keys idealised (distinct terms distinct); lanes of vectorised rollouts are C12; log-prob numerics are C15/C16",
+    ref="DESIGN.md §2 C04"),
 }
 NOT_YET = {}
 NA = {"C18": "file-system I/O and NumPy serialisation of concrete buffers: nothing symbolic to execute (eqx.tree_serialise_leaves crosses into numpy.save, CrossHair realises every input at that boundary); 'fails loudly' is an exception-path property of equinox. See DESIGN.md §2 C18."}
